@@ -23,6 +23,7 @@ func init() {
 			{ID: "C10-R6", Doc: "reducing merge: the combined value is stored in the output row before its buffers are refilled (shared)", Run: c10r6},
 			{ID: "C05-R1", Doc: "hash kernels and partitioner closures are pure: concurrent tasks of one slice do not share partitioning state (shared)", Run: c05r1},
 			{ID: "C12-R8", Doc: "a task that is OK has its output stored (local executor) (shared)", Run: c12r8},
+			{ID: "C05-R10", Doc: "every dependency of a task contributes its reader(s) to the task's input vector (shared)", Run: c05r10},
 			{ID: "C10-R11", Doc: "frames on which a reader compares or hashes keys take their key prefix from the reader's own type, never from the caller's destination frame (shared)", Run: c10r11},
 			{ID: "C10-R12", Doc: "a loop over the input readers visits every reader (shared)", Run: c10r12},
 			{ID: "C17-R9", Doc: "a pump loop ends exactly at end-of-stream (shared)", Run: c17r9},
